@@ -264,3 +264,34 @@ impl<T> Drop for LeakOnPanic<T> {
         }
     }
 }
+
+/// Request headers that belong to neighbouring concerns (ranges, validators, other negotiation).
+/// `should_gzip` and `FsDir::get` are functions of Accept-Encoding alone; a deterministic,
+/// case-derived subset of these rides along in three quarters of the C16 / C19 cases.
+pub const BYSTANDERS: [(&str, &str); 11] = [
+    ("range", "bytes=0-9"),
+    ("if-range", "\"v1\""),
+    ("if-none-match", "*"),
+    ("if-match", "\"a\""),
+    ("if-modified-since", "Thu, 01 Jan 2015 00:00:00 GMT"),
+    ("content-encoding", "gzip"),
+    ("te", "gzip;q=0"),
+    ("accept", "*/*;q=0"),
+    ("x-accept-encoding", "gzip;q=0"),
+    ("connection", "close"),
+    ("if-unmodified-since", "Thu, 01 Jan 2015 00:00:00 GMT"),
+];
+
+pub fn add_bystanders(h: &mut http::HeaderMap, sel: u64) -> Vec<&'static str> {
+    let mut names = Vec::new();
+    if sel & 3 == 0 {
+        return names;
+    }
+    for (i, (n, v)) in BYSTANDERS.iter().enumerate() {
+        if (sel >> (2 + i)) & 1 == 1 {
+            h.append(http::header::HeaderName::from_static(n), http::HeaderValue::from_static(v));
+            names.push(*n);
+        }
+    }
+    names
+}
